@@ -452,7 +452,7 @@ def run(tier, seed):
     rep.outside = ["noise longer than 3 bytes in the whole-call resynchronisation harness (the inductive parts have no such limit)", "pyserial behaviour"]
     nproc = 16
     parts = run_jobs(rep, _iter_worker, [Ns[k::nproc] for k in range(nproc) if Ns[k::nproc]], timeout_s=800)
-    rs = run_jobs(rep, _resync_worker, [(0, False), (1, True), (1, False), (2, True), (3, False)] + ([(6, True), (24, False)] if tier == "thorough" else []), timeout_s=800)
+    rs = run_jobs(rep, _resync_worker, [(0, False), (1, True), (1, False), (2, True), (3, False)] + ([(6, True), (24, False)] if tier == "thorough" else []), timeout_s=240 if tier == "quick" else 2400)
     bound_lemma(rep)
     checksum_check(rep, R)
     st = sum(p["states"] for p in parts + rs if p and "states" in p)
